@@ -50,7 +50,7 @@ nst_down_within_withdrawable nst_down_ends_inside_pending_records nst_down_reach
 nst_down_skips_zero_share_row""".split()
 
 TAG_UNIVERSE = {
-    "C01": ["C01_Conservation", "C01_Published", "C01_Escrow", "C01_NonNegative", "C01_OnlyDepositsCreate"],
+    "C01": ["C01_Conservation", "C01_Published", "C01_Escrow", "C01_NonNegative", "C01_OnlyDepositsCreate", "C01_NstAdjustmentNotApplied"],
     "C02": ["C02_ShareSum", "C02_SelfShare", "C02_ListExact", "C02_EmptyPool", "C02_Fair", "C02_RoundTripIn", "C02_RoundTripOut"],
     "C03": ["C03_PendingSums", "C03_IndexBijective", "C03_AcceptUndelegate", "C03_AcceptWithdraw", "C03_OneRecord",
             "C03_RecordLostOrChanged", "C03_SpuriousRecord", "C03_ReleasedEarly", "C03_ReleasedWhileHeld",
